@@ -270,3 +270,173 @@ def finish(res, flags):
 PARTS = [
     Part("broker", strategy=lambda tier: cases(tier), run=run_broker, quick=6000, thorough=400000),
 ]
+
+
+# ------------------------------------------------------------------------------------------ environment
+
+from vlib import envlab as E
+import numpy as np
+
+
+@st.composite
+def env_cases(draw, tier="quick"):
+    c = draw(E.episode_cases(tier, max_points=8, max_delay=0, leverage=1.0, with_pings=False, with_rates=False,
+                             rewards=[["simple"], ["log"], ["pnl"]], kinds=["etf", "uspot", "umargin"], spreads=(0.0, 0.01)))
+    c["extras"] = []
+    n = len(c["contracts"])
+    npts = len(c["gaps"])
+    c["fault"] = {"ci": draw(st.integers(0, n - 1)), "at": draw(st.integers(1, npts - 1)),
+                  "kind": draw(st.sampled_from(["nan_bid", "nan_ask", "nan_both", "discontinue", "discontinue"])),
+                  "later": draw(st.sampled_from(["stop", "continue", "continue"]))}
+    # actions: non-zero weights so that contracts are held / targeted around the fault
+    acts = []
+    for k in range(npts - 1):
+        acts.append([draw(st.sampled_from([0.0, 0.3, -0.3, 0.2, -0.15, 0.25])) for _ in range(n)])
+    c["actions"] = acts
+    c["delay"] = 0
+    return c
+
+
+def faulty_stream(b, case):
+    f = case["fault"]
+    t_fault = b.grid[f["at"]]
+    out = []
+    done = False
+    for (t, kind, payload) in b.stream:
+        if kind == "Q" and payload[0] == f["ci"] and t >= t_fault:
+            if not done:
+                done = True
+                mid = 0.5 * (payload[1] + payload[2])
+                if f["kind"] == "discontinue":
+                    out.append((t, "DISC", f["ci"]))
+                else:
+                    bid = float("nan") if f["kind"] in ("nan_bid", "nan_both") else payload[1]
+                    ask = float("nan") if f["kind"] in ("nan_ask", "nan_both") else payload[2]
+                    out.append((t, "Q", (f["ci"], bid, ask)))
+                continue
+            if f["later"] == "stop" or f["kind"] != "discontinue":
+                # quotes simply stop (or, for NaN faults, never come back: the faulty quote stays the last one)
+                continue
+            out.append((t, kind, payload))      # later quotes to a dead book must be ignored
+        else:
+            out.append((t, kind, payload))
+    return out
+
+
+def run_env(case):
+    res = Result()
+    b0 = E.build(case, make_env=False)
+    stream = faulty_stream(b0, case)
+    b = E.build(case, stream_override=stream)
+    # the grid point of the fault keeps an event exactly on it (other contracts' bars, or the fault itself)
+    tm = E.Timing(b)
+    env = b.env
+    n = b.n
+    f = case["fault"]
+    fixed, prop = case.get("fees", [0.0, 0.0])
+    led = B.Ledger(n, b.mult, case.get("deposit", 1000.0), fixed, prop)
+    env.reset()
+    flags = set()
+
+    def sides(events):
+        bid = [float("nan")] * n
+        ask = [float("nan")] * n
+        dead = [False] * n
+        for e in events:
+            if e[2] == "Q":
+                ci, b_, a_ = e[3]
+                if not dead[ci]:
+                    bid[ci], ask[ci] = b_, a_
+            elif e[2] == "DISC":
+                dead[e[3]] = True
+                bid[e[3]] = ask[e[3]] = float("nan")
+        return bid, ask
+
+    def positions():
+        return [float(env.broker.holdings_quantity.get(x, 0.0)).hex() for x in b.contracts]
+
+    for j in range(1, len(tm.steps)):
+        if j - 1 >= len(case["actions"]):
+            break
+        entry_events = tm.delivered_after_step(j - 1)
+        bid, ask = sides(entry_events)
+        held_missing = [i for i in range(n) if led.q[i] != 0 and math.isnan(bid[i] if led.q[i] > 0 else ask[i])]
+        # decision book = entry book + latent events of this step (faults sit on grid points: never latent)
+        dbid, dask = sides(tm.delivered_before_execution(j))
+        w = case["actions"][j - 1]
+        target_missing = [i for i in range(n) if w[i] != 0 and math.isnan(dask[i] if w[i] > 0 else dbid[i])]
+        involved = [i for i in range(n) if w[i] != 0 or led.q[i] != 0]
+        both_ok = all(not math.isnan(dbid[i]) and not math.isnan(dask[i]) for i in involved)
+        before = positions()
+        ntr = len(env.broker.track_record)
+        try:
+            obs, reward, done, info = env.step(E.to_action(w))
+            err = None
+        except EndOfEpisodeError:
+            res.excluded = "insolvent"
+            break
+        except Exception as exc:  # noqa
+            err = exc
+        abid, aask = sides(tm.delivered_after_step(j))
+        if err is not None:
+            if held_missing or target_missing or not both_ok:
+                # the step was bound (or allowed) to fail before trading: nothing may have changed
+                if positions() != before or len(env.broker.track_record) != ntr:
+                    res.fail("step %d raised %s (fault %s on contract %d) but positions / track record changed: %s -> %s" % (
+                        j, type(err).__name__, f["kind"], f["ci"], before, positions()))
+                flags.add("step-raised-before-trading")
+                if held_missing:
+                    flags.add("held-contract-lost-its-quote")
+                if target_missing and not held_missing:
+                    flags.add("targeted-contract-without-quote")
+                break
+            # the rebalance was fully quoted: the only legitimate failure is the valuation after this step's events
+            q_after = [float(env.broker.holdings_quantity.get(x, 0.0)) for x in b.contracts]
+            post_missing = [i for i in range(n) if q_after[i] != 0 and math.isnan(abid[i] if q_after[i] > 0 else aask[i])]
+            if not post_missing:
+                res.fail("step %d raised %s: %s although every involved contract is quoted on both sides and no held position lost its quote" % (
+                    j, type(err).__name__, str(err)[:120]))
+            else:
+                flags.add("valuation-after-fault-raised")
+            break
+        # the step returned normally
+        if held_missing:
+            i = held_missing[0]
+            res.fail("step %d returned normally although contract %d (position %r) had no %s quote when the step began" % (
+                j, i, led.q[i], "bid" if led.q[i] > 0 else "ask"))
+            break
+        if target_missing:
+            i = target_missing[0]
+            res.fail("step %d executed although contract %d (target weight %r) had no %s quote" % (j, i, w[i], "ask" if w[i] > 0 else "bid"))
+            break
+        if info:
+            for trd in info["_rebalancing"].trades:
+                led.trade(O_index(b, trd.contract), float(trd.quantity))
+        post_missing = [i for i in range(n) if led.q[i] != 0 and math.isnan(abid[i] if led.q[i] > 0 else aask[i])]
+        if post_missing:
+            i = post_missing[0]
+            res.fail("step %d returned reward %r although contract %d (position %r) lost its %s quote during the step" % (
+                j, reward, i, led.q[i], "bid" if led.q[i] > 0 else "ask"))
+            break
+        if isinstance(reward, float) and (math.isnan(reward) or math.isinf(reward)) and not done:
+            res.fail("step %d returned a non-finite reward %r" % (j, reward))
+            break
+        if any(led.q[i] == 0 and (math.isnan(abid[i]) or math.isnan(aask[i])) for i in range(n)):
+            flags.add("continues-with-unquoted-flat-contract")
+        if done:
+            break
+    for fl in flags:
+        res.tag(fl)
+    res.tag("fault-" + f["kind"], "later-" + f["later"])
+    res.nontrivial = bool(flags & {"held-contract-lost-its-quote", "targeted-contract-without-quote", "valuation-after-fault-raised"})
+    return res
+
+
+def O_index(b, contract):
+    for i, c in enumerate(b.contracts):
+        if c.symbol == contract.symbol:
+            return i
+    raise KeyError(contract)
+
+
+PARTS.append(Part("env", strategy=lambda tier: env_cases(tier), run=run_env, quick=2500, thorough=150000))
